@@ -6,6 +6,21 @@ HERE = os.path.dirname(os.path.dirname(os.path.abspath(__file__)))
 
 # id -> (technique, level text, level note, design section)
 CHECKS = {
+    "C01": ("proptest generated exchange lists x generated I/O schedules; metamorphic (one-shot vs scheduled observation) + ground truth from the stream builder",
+            "each generated exchange list (1..3 responses on one stream) is run one-shot against the generator's ground truth and again under 1..3 generated schedules whose observation must be identical field by field, including the exact number of server bytes consumed",
+            "trusted: stream builder (head model, chunk encoder), framing table, strict request-head parser and chunk decoder"),
+    "C09": ("enumerated configuration x server-behaviour menu with every accessor called at every step + proptest histories with premature advance attempts; state-graph model",
+            "37800-cell menu under the canonical schedule (all read-only calls interleaved, redirects followed and the followed flow run to completion) plus random histories with premature proceed() attempts in every state",
+            "trusted: successor model (body due / Expect / refusal / framing table / 3xx), exchange driver"),
+    "C10": ("exhaustive enumeration of the close-condition product (145152 cells) + proptest decorated exchanges; verdict formula oracle",
+            "complete over request version x Connection x method x Expect outcome x response version x status x framing x response Connection; Redirect and Cleanup compared",
+            "trusted: five-condition formula as stated; reason text classified by keyword"),
+    "C11": ("proptest generated handshakes x every look-prefix length; per-window oracle + ground truth of the remaining exchange",
+            "for every prefix length of every generated interim/final head a fresh flow is driven through Await100 and on to Cleanup in the branch the model prescribes",
+            "trusted: head model, exchange ground truth"),
+    "C12": ("bounded-exhaustive strings over protocol alphabets after valid prefixes + proptest grammar-aware mutants of valid exchanges + coverage-guided libFuzzer (thorough); crash/overflow + count/subsequence oracle inside the driver",
+            "all strings up to length 6 (7) over a 10-symbol alphabet in 12 protocol states, 200k (8M) mutated exchanges, and a libFuzzer campaign with dictionary and seed corpus, all through one tolerant driver with overflow checks on",
+            "trusted: tolerant driver; hang = bounded loops + watchdog (exit 2)"),
     "C02": ("proptest generated requests (headers, redirect depth, APIs) + generated buffer-size schedules; strict-parse round trip against an effective-request model; metamorphic one-shot vs scheduled emission",
             "each generated request is emitted one-shot and again under a schedule aimed at line boundaries; the head is parsed by a strict parser and compared field by field with the model, and the body actually sent is checked against the announced framing",
             "trusted: strict request-head parser, effective-request model (redirect suppression, automatic Host / framing)"),
